@@ -907,6 +907,11 @@ func versionConfigs(thorough bool) []*world.Config {
 		// height 3 with chains of two stacked pass-through nodes (only layer-0 keys under a layer-3 key)
 		minEntries(world.LKeyCfg(2, []uint8{0, 0, 0, 0, 3, 0, 0, 0, 1, 3}, 1, B, "none"), 7, thorough),
 	}
+	// key layers far above any height (a user Key pinning entries to the top node; at branch factor 2 the
+	// multiples of 65536): layers 16, 17, 40, 64, 255 - whatever is indexed or sized by a key's *layer* instead
+	// of a node's level meets numbers no tree height ever reaches
+	cs = append(cs, world.LKeyCfg(2, []uint8{16, 0, 1, 17, 0, 255}, 1, B, "none"))
+	cs = append(cs, world.LKeyCfg(2, []uint8{0, 40, 0, 1, 64, 0}, 1, M, "none"))
 	// []byte keys (not comparable with ==)
 	cs = append(cs, world.BytesCfg(2, []uint8{0, 1, 0, 2, 0}, B, "none"))
 	// struct keys: ordered by a comparator of their own, layered through the configured marshaler (which can fail)
